@@ -14,6 +14,8 @@ def to_json(e):
         return ["cb", bool(e)]
     if isinstance(e, numbers.Integral):
         return ["c", int(e)]
+    if isinstance(e, numbers.Complex) and not isinstance(e, numbers.Real):
+        return ["cx", int(e.real), int(e.imag)]
     if isinstance(e, numbers.Real):
         if float(e).is_integer() and abs(e) < 2 ** 30:
             return ["c", int(e)]
@@ -70,6 +72,8 @@ def from_json(j):
         return j[1]
     if t == "cb":
         return bool(j[1])
+    if t == "cx":
+        return complex(j[1], j[2])
     if t == "v":
         return p.Variable(j[1])
     if t == "sum":
@@ -156,6 +160,8 @@ def show(j):
     t = j[0]
     if t in ("c", "cb"):
         return str(j[1])
+    if t == "cx":
+        return "(%d+%dj)" % (j[1], j[2])
     if t == "v":
         return j[1]
     if t == "sum":
